@@ -9,7 +9,8 @@ logic that is inline in the readers — with `isotherm_from_csv/_aif/_xl` on min
 the generated tables are compared with the imported Python objects and with the documents the real writers produce; the
 domain predicate of the theorems is the one the harness uses to draw in-domain text.
 Failing-input search: full round trips in the three formats x three classes x unit configurations x data shapes with metadata drawn
-from each format's value domain, and one out-of-domain value per isotherm which must be refused with a pyGAPS error or survive unchanged.
+from each format's value domain, one out-of-domain value per isotherm which must be refused with a pyGAPS error or survive unchanged, metadata keys that
+begin with a text the format uses itself (section / dispatch prefixes, material-property prefixes) and material properties whose names contain such a prefix.
 gemmi, xlrd/xlwt and pandas I/O are exercised only by these round trips (residue).
 """
 import json
@@ -18,7 +19,7 @@ import os
 import tempfile
 
 from pgv import isogen
-from pgv.core import err_class, import_pygaps
+from pgv.core import import_pygaps
 
 ALPHA = "abcxyzABCXYZ0123456789 _-+.,;:[]()eE'\"=µé"
 SEEDS = ["", "None", "none", "NONE", "nOnE", " none", "True", "true", "FALSE", "tRuE", "0", "007", "12", "-3", "+4", "1.5", "-2.25e-3", "1e5", "1E5", "1e", "e5", ".5", "5.",
@@ -237,7 +238,7 @@ def run(ck):
             ask(f"gate {fmt} {hx(w)}")
     # A6. the generated tables
     TBL = {"aifMeta": "sss", "aifMetaOld": "sss", "aifData": "ss", "aifUnits": "s", "xlMeta": "sssnn", "versions": "sss", "csvModelWriter": "sss", "csvModelReader": "ss",
-           "csvHeaders": "ss", "xlPoint": "nnnnnn", "xlModelWriter": "nsnssn", "xlParams": "nnnn", "xlMarkers": "sss", "aifModelWriter": "ss?s", "aifPrefixes": "sssss", "aifLoops": "ss", "csvBranch": "ns", "xlBranch": "ns"}
+           "csvHeaders": "ss", "xlPoint": "nnnnnn", "xlModelWriter": "nsnssn", "xlParams": "nnnn", "xlMarkers": "sss", "aifModelWriter": "ss?s", "aifPrefixes": "sssss", "aifLoops": "ss", "csvBranch": "ns", "xlBranch": "ns", "csvStops": "s", "aifDispatch": "ss", "matStrip": "sss"}
     for t in list(TBL) + ["precision"]:
         ask(f"tbl {t}")
 
@@ -439,7 +440,13 @@ def run(ck):
     tol = 0.5e-8        # the DOCUMENTED precision of the property statement (8 decimals); that the code's precision is 8 is theorem precision_is_eight_decimals
 
     # ------------------------------------------------------------------ B. full round trips
-    n = ck.n(70, 400)
+    # texts the formats themselves use at the start of a key, from the GENERATED tables (Gen/Formats); the literals only when the driver is down
+    MATP = {"aif": "sample_", "csv": "_material_", "xl": "_material_"}
+    SECTION = {"csv": ["data", "model"], "aif": ["data", "model"], "xl": []}
+    if G is not None and G.get("aifPrefixes") and G.get("csvStops") and G.get("aifDispatch"):
+        MATP = {"aif": G["aifPrefixes"][0][2], "csv": G["aifPrefixes"][0][3], "xl": G["aifPrefixes"][0][4]}
+        SECTION = {"csv": list(G["csvStops"][0]), "aif": list(G["aifDispatch"][0]), "xl": []}
+    n = ck.n(90, 400)
     try:
         for i in range(n):
             c = isogen.content(rng, domain="text")
@@ -447,18 +454,38 @@ def run(ck):
             # metadata from the format domain: in-domain text (from the Lean predicate), non-negative ints, floats, bools
             meta = {}
             # (AIF declares `user`, `date`, `instrument`, `material_batch` as text and `material_mass`, `activation_temperature` as numbers: not used as free keys)
-            # TODO(candidate defects D1/D2, reported): keys starting with `data` / `model` (CSV, AIF) or `sample_` (AIF) are kept out of the generator
             for k in rng.sample(["project", "operator2", "machine", "lab", "t_act", "comment", "DOI", "is_real", "n_runs"], rng.randint(0, 5)):
                 r = rng.random()
                 meta[k] = (rng.choice(texts) if r < 0.4 else rng.randint(0, 10 ** rng.randint(0, 9)) if r < 0.55 else
                            round(rng.uniform(-50, 500), rng.randint(1, 6)) if r < 0.8 else (rng.random() < 0.5))
             c["meta"] = meta
-            odd = None
-            if rng.random() < 0.5:
+            # at most ONE of: a value outside the format's value domain / a metadata key of a special class / material properties with special names
+            odd = special_key = None
+            r = rng.random()
+            if r < 0.4:
                 odd = rng.choice([("negative int", -rng.randint(1, 99)), ("none", None), ("list of numbers", [1, 2.5, 3]), ("list of text", ["a", "b"]),
                                   ("text with separator", "a,b"), ("padded text", " padded "), ("number-like text", "1e5"), ("bool-like text", "True"),
                                   ("none-like text", "None"), ("empty text", ""), ("text with quote", "it's"), ("text with blank", "two words")])
                 c["meta"]["odd_one"] = odd[1]
+            elif r < 0.62:
+                # keys inside the stated key domain (no separator, no blank) that begin with a text the format itself uses: the section
+                # prefixes of the CSV reader / the dispatch prefixes of the AIF reader (`dataset`, `model_x`), a material-property prefix
+                # (`sample_weight`, `_material_q`).  Written LAST, so that it is the last metadata line of a document.
+                pfx = rng.choice(sorted(set(SECTION["csv"] + SECTION["aif"])) + sorted(set(MATP.values())))
+                special_key = pfx + rng.choice(MAT_TAILS if pfx in MATP.values() else ["set", "_source", "_x", "ling", "_type", "X1", "um"])
+                if special_key in isogen.RESERVED or special_key in c["meta"] or special_key in c["material_props"]:
+                    special_key = None
+                else:
+                    c["meta"][special_key] = rng.choice(texts) if rng.random() < 0.4 else round(rng.uniform(-50, 500), rng.randint(1, 6))
+            elif r < 0.82:
+                # material properties under names of the whole name domain (no separator, no blank): plain ones and names that contain a
+                # material-property prefix of one of the formats at the start, inside or at the end
+                props = {}
+                for _ in range(rng.choice([1, 1, 2, 3])):
+                    P = rng.choice(sorted(set(MATP.values())))
+                    name = rng.choice(["pore_size", "form", "BET-area", "lot.7", "a" + P + "b", "x" + P, P + "q", P + P + "z", P[1:] + "k", "a" + P[:-1], "Q" + P + "r" + P])
+                    props[name] = rng.choice(texts) if rng.random() < 0.3 else round(rng.uniform(0.1, 900), rng.randint(1, 5)) if rng.random() < 0.8 else (rng.random() < 0.5)
+                c["material_props"] = props
             try:
                 iso = _build(pg, c)
             except Exception:
@@ -467,6 +494,14 @@ def run(ck):
             before = isogen.observe(pg, iso)
             for fmt in ("csv", "xl", "aif"):
                 sig = {"format": fmt, "class": c["kind"], "odd_value": odd[0] if odd else None}
+                kcls = _key_class(fmt, special_key, SECTION, MATP) if special_key else None
+                if special_key:
+                    sig["key_class"] = kcls or "plain in this format"
+                if c["material_props"]:
+                    sig["material_prop_class"] = "contains the format's prefix" if any(MATP[fmt] in k for k in c["material_props"]) else "plain"
+                section_key = bool(kcls) and kcls.startswith("section prefix")
+                # an isotherm whose last metadata key begins with a section / dispatch prefix of this format: whatever goes wrong is ONE case
+                sec_sig = {"format": fmt, "class": c["kind"], "key_class": kcls, "clause": "isotherm with a metadata key of this class does not come back"}
                 if c["kind"] == "point":
                     br = c["branch"]
                     sig["interleaved_marks"] = any(b < a for a, b in zip(br, br[1:]))
@@ -497,23 +532,45 @@ def run(ck):
                             doc = isotherm_to_aif(iso)
                             back = isotherm_from_aif(doc)
                 except pgError as e:
-                    ck.count((fmt, c["kind"], i), bucket=f"{fmt}:{c['kind']}:refused")
-                    if odd is None:
+                    ck.count((fmt, c["kind"], i), bucket=f"{fmt}:{c['kind']}:refused" + (":" + kcls if kcls else ""))
+                    if section_key:
+                        ck.fail_case(sec_sig, {"outcome": "refused", "key": special_key, "error": repr(e)[:300], "meta": _js(c["meta"]), "content": _content(c)})
+                    elif odd is None:
                         ck.fail_case({**sig, "clause": "in-domain isotherm refused", "error": type(e).__name__}, {"error": repr(e)[:300], "meta": _js(c["meta"]), "content": _content(c)})
                     continue
                 except Exception as e:  # noqa
-                    ck.count((fmt, c["kind"], i), bucket=f"{fmt}:{c['kind']}:raised")
-                    ck.fail_case({**sig, "clause": "refusal is not a pyGAPS error" if odd else "in-domain isotherm raises", "error": type(e).__name__},
-                                 {"error": repr(e)[:300], "meta": _js(c["meta"]), "content": _content(c)})
+                    ck.count((fmt, c["kind"], i), bucket=f"{fmt}:{c['kind']}:raised" + (":" + kcls if kcls else ""))
+                    if section_key:
+                        ck.fail_case(sec_sig, {"outcome": "raises " + type(e).__name__, "key": special_key, "error": repr(e)[:300], "meta": _js(c["meta"]), "content": _content(c)})
+                    else:
+                        ck.fail_case({**sig, "clause": "refusal is not a pyGAPS error" if odd else "in-domain isotherm raises", "error": type(e).__name__},
+                                     {"error": repr(e)[:300], "meta": _js(c["meta"]), "content": _content(c)})
                     continue
                 after = isogen.observe(pg, back)
-                ck.count((fmt, c["kind"], i), bucket=f"{fmt}:{c['kind']}:ok" + (":fitted" if c.get("fitted") else "") + (":zeros" if c.get("zeros") else ""),
+                ck.count((fmt, c["kind"], i), bucket=f"{fmt}:{c['kind']}:ok" + (":fitted" if c.get("fitted") else "") + (":zeros" if c.get("zeros") else "") +
+                         (":" + kcls if kcls else "") + (":props " + sig["material_prop_class"] if c["material_props"] and "prefix" in sig["material_prop_class"] else ""),
                          sample={"format": fmt, "class": c["kind"], "metadata": _js(c["meta"])} if i % 41 == 0 else None)
                 diffs = _diff(before, after, fmt, tol)
+                captured = False
+                if section_key and any(w in (f"metadata key {special_key!r}", f"metadata {special_key!r}") for w, *_ in diffs):
+                    ck.fail_case(sec_sig, {"outcome": "comes back changed", "key": special_key, "differences": [[w, a, b] for w, a, b, _ in diffs[:6]], "class read": after["class"],
+                                           "meta": _js(c["meta"]), "content": _content(c)})
+                    continue
+                if diffs and kcls == "material prefix":
+                    # exactly this and nothing else: the key is gone and its value is the material property <rest of the key>
+                    want = dict(before, dict=dict(before["dict"]))
+                    val = want["dict"].pop(special_key)
+                    mat = want["dict"]["material"]
+                    want["dict"]["material"] = {**(mat if isinstance(mat, dict) else {"name": mat}), special_key[len(MATP[fmt]):]: val}
+                    rest = _diff(want, after, fmt, tol)
+                    if not any(w in (f"metadata key {special_key!r}", f"metadata {special_key!r}", "metadata key 'material'", "metadata 'material'") for w, *_ in rest):
+                        ck.fail_case({"format": fmt, "key_class": kcls, "clause": "metadata key silently becomes a material property"},
+                                     {"key": special_key, "value": _js(val), "material exported": _js(mat), "material imported": _js(after["dict"]["material"]), "content": _content(c)})
+                        diffs, captured = rest, True        # whatever else differs is reported on its own
                 for where, a, b, vclass in diffs[:6]:
                     ck.fail_case({**sig, "clause": "silently changed" if where.startswith("metadata") and odd and "odd_one" in where else "round trip differs",
                                   "where": where.split(" ")[0], "value_class": vclass}, {"where": where, "exported": a, "imported": b, "meta": _js(c["meta"]), "content": _content(c)})
-                if not diffs and back.iso_id != iso.iso_id:
+                if not diffs and not captured and back.iso_id != iso.iso_id:
                     ck.fail_case({**sig, "clause": "identifier differs although content is equal"}, {"ids": [iso.iso_id, back.iso_id]})
                 # the document the real writer produced has the structure the generated tables describe (ties Gen/Formats to the writers)
                 if G is not None and doc is not None:
@@ -536,10 +593,27 @@ def run(ck):
                       "generated tables against the imported objects and against the documents the writers produce; "
                       "B: three formats x three classes x seeded unit configurations x data shapes (1-13 points, ads-only / two-branch / des-only / user marks, numeric extra columns, zeros at any position of any column, "
                       "zero and negative temperatures, every model with given ranges and models fitted on data) with metadata from the format domain "
-                      "(in-domain text as decided by the Lean predicate, non-negative ints, floats, bools) plus one out-of-domain value in half of the isotherms; string and file targets; distinct = (format, class, content)")
+                      "(in-domain text as decided by the Lean predicate, non-negative ints, floats, bools) plus AT MOST ONE of: an out-of-domain value (40 %), a last metadata key that begins with a section / dispatch prefix "
+                      "or a material-property prefix of a format, taken from the generated tables (22 %), material properties whose names contain such a prefix at the start / inside / at the end (20 %); "
+                      "string and file targets; distinct = (format, class, content)")
     ck.assumptions += ["gemmi.cif, xlrd/xlwt, pandas.read_csv/to_csv are exercised by the round trips only", "digits of non-ASCII scripts are outside the model alphabet",
                        "_from_list is modelled on flat sequences of numeric literals over digits, sign, '.', 'e', '_' (nested sequences, quoted text, complex / hex literals outside)",
-                       "metadata keys beginning with 'data' / 'model' (CSV, AIF) or 'sample_' (AIF), and material-property names containing the format's prefix, are outside the generator (reported candidates)"]
+                       "special metadata keys: prefix + a tail of letters / digits / underscore, never a name the format writes itself (`model_name`, `data0`); their values and the values of the special material "
+                       "properties are in-domain text, floats or booleans (integers come back as floats from Excel: S18-xl-int)",
+                       "material-property names and metadata keys with a blank are outside the stated key domain (AIF writes them with underscores: theorem aifKey_blank_changed; tied in step A4)"]
+
+
+MAT_TAILS = ["weight", "q", "lot7", "x_y"]
+
+
+def _key_class(fmt, key, section, matp):
+    """class of a metadata key in one format: it begins with that format's material-property prefix, with one of its section / dispatch prefixes, or is plain"""
+    if key.startswith(matp[fmt]):
+        return "material prefix"
+    for p_ in section.get(fmt, []):
+        if key.startswith(p_):
+            return "section prefix " + p_
+    return None
 
 
 def _strengthen(rng, c):
